@@ -441,6 +441,8 @@ class BinaryQuadraticModel(QuadraticViewsMixin):
         if isinstance(other, BinaryQuadraticModel):
             if other.num_variables and other.vartype != self.vartype:
                 return NotImplemented  # fallback on __sub__
+            if other is self:
+                other = self.copy()  # scale(-1) below would flip the subtrahend too
             self.scale(-1)
             self.update(other)
             self.scale(-1)
